@@ -218,6 +218,11 @@ func runCase(tc *tcase, pub *chain.Pub, variant string) (ob observed) {
 		mu.Lock()
 		ob.Reported = nil
 		mu.Unlock()
+		if (c.N+len(c.Pre))%2 == 0 {
+			// the application drops the publisher's handler in between: what has been synced so far is the subscriber's
+			// knowledge, not the handler's
+			sub.RemoveHandler(pub.ID)
+		}
 		pub.Reset(c.N)
 	}
 	if variant == "cancel-in-hook" {
